@@ -1,6 +1,8 @@
 import Pearl.Proofs.LtsLemmas
+import Pearl.Proofs.ConcRW
 /-
-C08 — deadlock clause and the append critical section.
+C08 — deadlock clause, the append critical section, and (second half of the file) the read side:
+freshness, no lost acknowledged write, equality with the sequential model, linearization points.
 
 `Pearl.Lts` (see `Pearl/Model/Lts.lean`): `N` writers into a full active blob, the observer channel of
 capacity `C` (`OBSERVER_CHANNEL_SIZE_LIMIT = 1024` in `src/storage/observer.rs`), the worker, and the storage
@@ -26,6 +28,20 @@ Independent of the protocol:
 * `rw_exclusion`          : the worker holds the lock exclusively only while nobody holds it shared;
 * `ranges_disjoint`, `ranges_disjoint_interleaved`, `written_bytes_intact`, `append_cs_atomic`
                           : the per-blob append section (`Pearl.Append`, which does not mention `Proto`).
+
+The data path (`Pearl.ConcRW`, `Pearl/Model/ConcRW.lean`: `N` clients doing `write | read | contains | delete` in
+the atomic steps of the code over the L2 `Store`, with rotation and index dumps; helper lemmas and the invariants
+`Inv`, `TInv`, `HInv`, `DInv`, `BInv` in `Pearl/Proofs/ConcRW.lean`).  For every reachable state, every `N`:
+* `read_returns_written`   : a completed read never returns a torn or foreign value;
+* `read_fresh` (`_ts`, `_found`, `contains_fresh`) : never older (in rank) than a write acknowledged before it
+                             started; never `NotFound` then; with deletes: the first-ranked record decides;
+* `no_lost_ack`, `acked_write_readable`, `skipped_write_saw_live` : acknowledged records stay, at their place;
+* `store_eq_replay`, `equals_sequential_partial`, `quiescent_equals_sequential_partial`,
+  `quiescent_equals_sequential` : the store is the sequential model on the linearization order;
+* `real_time_order`, `linearizable_partial` : explicit linearization points; reads atomic when nobody deletes;
+* `blob_lock_exclusive`, `client_progress`, `client_steps_bounded` : locks of the data path, no deadlock;
+* FALSE in general, with witnesses: `read_not_linearizable_with_delete`, `duplicate_check_race`,
+  `delete_phase_race`.
 -/
 namespace Pearl
 namespace C08
@@ -312,5 +328,631 @@ example : (arun true [.lock 0, .lock 1] (ainit 7 [3, 2])).isNone = true := by de
 example : ((arun true [.lock 0, .reserve 0, .write 0, .unlock 0, .lock 1, .reserve 1] (ainit 7 [3, 2])).map
       (fun s => (s.locked, s.ws))) = some (true, [.done ⟨7, 3⟩, .reserved ⟨10, 2⟩]) := by decide
 
+
+/-! ## concurrent reads, writes, probes and deletes (`Pearl.ConcRW`, `Pearl/Model/ConcRW.lean`)
+
+`N` clients, one operation each (`write k ts d | read k | contains k | delete k ts oip`), split into the atomic
+steps of the code, over the L2 store; a worker that rotates the active blob whenever nobody holds the storage
+lock shared, and dumps indexes at any time.  All theorems are for every reachable state = every schedule, every
+`N`, every starting store that is well-formed and has an active blob.
+
+What was found in `/repo` (fe5e781) while building the model:
+* a read keeps ONE shared guard of `Inner::safe` over both look-ups and the data load
+  (`read_with_optional_meta`: `let safe = self.inner.safe.read().await; get_latest_entry(&safe, ..)`, guard dropped
+  at return), and rotation needs `safe.write()`: no rotation inside a read.  But the read is not a snapshot: the
+  guard of the active blob (`ablob.read().await`) is a temporary dropped before `safe.blobs.read().await`; a
+  writer (`upgradable_read`) or deleter (`active_blob.write()`, `blobs.write()`) gets in between.
+  Freshness (`read_fresh`) survives this; linearizability does not (`read_not_linearizable_with_delete`).
+* `write_with_optional_meta` checks for a duplicate under its own guard (`contains_with`) and appends under a
+  second one: with `allow_duplicates = false` two concurrent writes of one key are both stored
+  (`duplicate_check_race`).
+* `delete_core` marks the active blob, releases its lock, then takes `blobs.write()`: two deletes can pass each
+  other between the phases (`delete_phase_race`).
+-/
+
+open ConcRW (COp Resp Ev Client CState Wit InStore AckedBefore LinBefore wrec)
+
+/-- C08/R1 (`read_returns_written`): in every reachable state, for every schedule and any number of clients, a
+    completed `read k` answers with a `ReadResult` (never `torn`: the bytes a found header points to are in the
+    file), and if it is `Found r` then `r` is a live record of key `k` that the store holds, and it was either in
+    the store from the start or is exactly the record `wrec k ts d` of a client `j` whose operation is
+    `write k ts d` and which has pushed it (`Ev.push j r` is in the trace). -/
+theorem read_returns_written {st : Store} {ops : List COp} {s : CState} (hwf : st.WF)
+    (ha : ∃ a, st.active = some a) (hr : ConcRW.Reach (ConcRW.init st ops) s)
+    {i : Nat} {c : Client} {k : Key} {resp : Resp}
+    (hc : s.clients[i]? = some c) (hop : c.op = .read k) (hd : c.pc = .done resp) :
+    ∃ res, resp = .value res ∧
+      ∀ r, res = .found r →
+        r.key = k ∧ r.del = false ∧ r ∈ s.landed ∧ InStore s.store r ∧
+          (InStore st r ∨
+            ∃ j ts d, ops[j]? = some (COp.write k ts d) ∧ r = wrec k ts d ∧ Ev.push j r ∈ s.trace) := by
+  obtain ⟨a, ha⟩ := ha
+  obtain ⟨hi, ht⟩ := ConcRW.tinv_reach hwf ha hr
+  have hok := ConcRW.done_respOK hi hc hd
+  cases resp with
+  | value res =>
+    refine ⟨res, rfl, ?_⟩
+    rintro r rfl
+    obtain ⟨_, hres, hland⟩ := hok
+    obtain ⟨q, hq1, hq2, hq3, hq4⟩ := hres.1 (by simp)
+    rw [hop] at hq2
+    have hin : InStore s.store r := by rw [← hq3]; exact ConcRW.inStore_of_positioned hq1
+    have hk : r.key = k := by rw [← hq3]; exact hq2
+    refine ⟨hk, hq4, hland r rfl, hin, ?_⟩
+    rcases ht.prov r hin hq4 with h1 | ⟨j, h1⟩
+    · exact Or.inl h1
+    · obtain ⟨k', ts, d, h2, h3⟩ := ht.push j r h1
+      have : k' = k := by rw [h3] at hk; exact hk
+      subst this
+      exact Or.inr ⟨j, ts, d, h2, h3, h1⟩
+  | torn => exact absurd hok id
+  | has x => obtain ⟨⟨k', hk'⟩, _⟩ := hok; rw [hop] at hk'; cases hk'
+  | wrote p =>
+    cases p with
+    | none => obtain ⟨⟨k', ts, d, hk'⟩, _⟩ := hok; rw [hop] at hk'; cases hk'
+    | some p => obtain ⟨_, k', ts, d, hk', _⟩ := hok; rw [hop] at hk'; cases hk'
+  | deleted n => obtain ⟨k', ts, oip, hk'⟩ := hok; rw [hop] at hk'; cases hk'
+
+/-- C08/R2 (`read_fresh`): if write `w` stored its record at `p` and was acknowledged before read `r` of the same
+    key was invoked (`AckedBefore w r`), then `r` does not answer `NotFound`: its answer classifies a record `q` of
+    that key in the store (`Wit`: for `Found x`, `q.r = x` live; for `Deleted t`, `q` is a marker with timestamp
+    `t` — the Spec's deletion semantics: the first-ranked record decides) and `q` is ranked at least as high as
+    `p` (timestamp, then blob id, then position).  This holds although a read is NOT an atomic snapshot (active
+    blob first, closed blobs later, writes and deletes in between): see `read_not_linearizable_with_delete`. -/
+theorem read_fresh {st : Store} {ops : List COp} {s : CState} (hwf : st.WF)
+    (ha : ∃ a, st.active = some a) (hr : ConcRW.Reach (ConcRW.init st ops) s)
+    {w r : Nat} {cw cr : Client} {k : Key} {p : PRec} {resp : Resp}
+    (hab : AckedBefore w r s.trace)
+    (hcw : s.clients[w]? = some cw) (hw : cw.pc = .done (.wrote (some p))) (hpk : p.r.key = k)
+    (hcr : s.clients[r]? = some cr) (hop : cr.op = .read k) (hd : cr.pc = .done resp) :
+    ∃ res q, resp = .value res ∧ Wit s.store k res q ∧ rankLe q p = true := by
+  obtain ⟨a, ha⟩ := ha
+  obtain ⟨hi, ht⟩ := ConcRW.tinv_reach hwf ha hr
+  have hok := ConcRW.done_respOK hi hcr hd
+  have hp := ht.acked w r cw cr p hab hcw hcr hw
+  cases resp with
+  | value res =>
+    obtain ⟨_, hres, _⟩ := hok
+    rw [hop] at hres
+    obtain ⟨q, hq, hle⟩ := hres.2 p hp hpk
+    exact ⟨res, q, rfl, hq, hle⟩
+  | torn => exact absurd hok id
+  | has x => obtain ⟨⟨k', hk'⟩, _⟩ := hok; rw [hop] at hk'; cases hk'
+  | wrote p =>
+    cases p with
+    | none => obtain ⟨⟨k', ts, d, hk'⟩, _⟩ := hok; rw [hop] at hk'; cases hk'
+    | some p => obtain ⟨_, k', ts, d, hk', _⟩ := hok; rw [hop] at hk'; cases hk'
+  | deleted n => obtain ⟨k', ts, oip, hk'⟩ := hok; rw [hop] at hk'; cases hk'
+
+theorem rankLe_ts {q p : PRec} (h : rankLe q p = true) : p.r.ts ≤ q.r.ts := by
+  rw [rankLe_iff, rankBefore_iff] at h
+  omega
+
+/-- `read_fresh`, timestamp form: the answer carries a timestamp, and it is not older than the write's -/
+theorem read_fresh_ts {st : Store} {ops : List COp} {s : CState} (hwf : st.WF)
+    (ha : ∃ a, st.active = some a) (hr : ConcRW.Reach (ConcRW.init st ops) s)
+    {w r : Nat} {cw cr : Client} {k : Key} {p : PRec} {resp : Resp}
+    (hab : AckedBefore w r s.trace)
+    (hcw : s.clients[w]? = some cw) (hw : cw.pc = .done (.wrote (some p))) (hpk : p.r.key = k)
+    (hcr : s.clients[r]? = some cr) (hop : cr.op = .read k) (hd : cr.pc = .done resp) :
+    ∃ res t, resp = .value res ∧ res.ts? = some t ∧ p.r.ts ≤ t := by
+  obtain ⟨res, q, h1, h2, h3⟩ := read_fresh hwf ha hr hab hcw hw hpk hcr hop hd
+  have hts := rankLe_ts h3
+  obtain ⟨_, _, h4⟩ := h2
+  cases res with
+  | found x => exact ⟨_, x.ts, h1, rfl, by rw [← h4.1]; exact hts⟩
+  | deleted t => exact ⟨_, t, h1, rfl, by rw [← h4.2]; exact hts⟩
+  | notFound => exact absurd h4 id
+
+/-- `read_fresh` absent a delete: if the store holds no marker of the key, the read finds a value, not older than
+    the acknowledged write -/
+theorem read_fresh_found {st : Store} {ops : List COp} {s : CState} (hwf : st.WF)
+    (ha : ∃ a, st.active = some a) (hr : ConcRW.Reach (ConcRW.init st ops) s)
+    {w r : Nat} {cw cr : Client} {k : Key} {p : PRec} {resp : Resp}
+    (hab : AckedBefore w r s.trace)
+    (hcw : s.clients[w]? = some cw) (hw : cw.pc = .done (.wrote (some p))) (hpk : p.r.key = k)
+    (hcr : s.clients[r]? = some cr) (hop : cr.op = .read k) (hd : cr.pc = .done resp)
+    (hnm : ∀ x, InStore s.store x → x.key = k → x.del = false) :
+    ∃ x, resp = .value (.found x) ∧ x.key = k ∧ p.r.ts ≤ x.ts := by
+  obtain ⟨res, q, h1, h2, h3⟩ := read_fresh hwf ha hr hab hcw hw hpk hcr hop hd
+  have hts := rankLe_ts h3
+  obtain ⟨hq1, hq2, h4⟩ := h2
+  cases res with
+  | found x => exact ⟨x, h1, by rw [← h4.1]; exact hq2, by rw [← h4.1]; exact hts⟩
+  | deleted t =>
+    have := hnm q.r (ConcRW.inStore_of_positioned hq1) hq2
+    rw [h4.1] at this; cases this
+  | notFound => exact absurd h4 id
+
+/-- the same for `contains` -/
+theorem contains_fresh {st : Store} {ops : List COp} {s : CState} (hwf : st.WF)
+    (ha : ∃ a, st.active = some a) (hr : ConcRW.Reach (ConcRW.init st ops) s)
+    {w r : Nat} {cw cr : Client} {k : Key} {p : PRec} {resp : Resp}
+    (hab : AckedBefore w r s.trace)
+    (hcw : s.clients[w]? = some cw) (hw : cw.pc = .done (.wrote (some p))) (hpk : p.r.key = k)
+    (hcr : s.clients[r]? = some cr) (hop : cr.op = .contains k) (hd : cr.pc = .done resp) :
+    ∃ res q, resp = .has (res.map (·.ts)) ∧ Wit s.store k res q ∧ rankLe q p = true := by
+  obtain ⟨a, ha⟩ := ha
+  obtain ⟨hi, ht⟩ := ConcRW.tinv_reach hwf ha hr
+  have hok := ConcRW.done_respOK hi hcr hd
+  have hp := ht.acked w r cw cr p hab hcw hcr hw
+  cases resp with
+  | has x =>
+    obtain ⟨_, res, h1, hres⟩ := hok
+    rw [hop] at hres
+    obtain ⟨q, hq, hle⟩ := hres.2 p hp hpk
+    exact ⟨res, q, by rw [h1], hq, hle⟩
+  | torn => exact absurd hok id
+  | value x => obtain ⟨⟨k', hk'⟩, _⟩ := hok; rw [hop] at hk'; cases hk'
+  | wrote p =>
+    cases p with
+    | none => obtain ⟨⟨k', ts, d, hk'⟩, _⟩ := hok; rw [hop] at hk'; cases hk'
+    | some p => obtain ⟨_, k', ts, d, hk', _⟩ := hok; rw [hop] at hk'; cases hk'
+  | deleted n => obtain ⟨k', ts, oip, hk'⟩ := hok; rw [hop] at hk'; cases hk'
+
+theorem respOf_done {s : CState} {i : Nat} {c : Client} {r : Resp} (hc : s.clients[i]? = some c)
+    (hd : c.pc = .done r) : ConcRW.respOf s i = some r := by
+  obtain ⟨op, pc, born⟩ := c
+  simp only at hd
+  subst hd
+  simp [ConcRW.respOf, hc]
+
+theorem respOf_some {s : CState} {i : Nat} {r : Resp} (h : ConcRW.respOf s i = some r) :
+    ∃ c, s.clients[i]? = some c ∧ c.pc = .done r := by
+  unfold ConcRW.respOf at h
+  split at h
+  · rename_i op r' born hc
+    simp only [Option.some.injEq] at h
+    subst h
+    exact ⟨_, hc, rfl⟩
+  · cases h
+
+/-- `read_fresh` in terms of the responses and the operation list -/
+theorem read_fresh_resp {st : Store} {ops : List COp} {s : CState} (hwf : st.WF)
+    (ha : ∃ a, st.active = some a) (hr : ConcRW.Reach (ConcRW.init st ops) s)
+    {w r : Nat} {k : Key} {p : PRec} {resp : Resp}
+    (hab : AckedBefore w r s.trace) (hw : ConcRW.respOf s w = some (.wrote (some p))) (hpk : p.r.key = k)
+    (hop : ops[r]? = some (.read k)) (hd : ConcRW.respOf s r = some resp) :
+    ∃ res q, resp = .value res ∧ Wit s.store k res q ∧ rankLe q p = true := by
+  obtain ⟨cw, hcw, hwd⟩ := respOf_some hw
+  obtain ⟨cr, hcr, hrd⟩ := respOf_some hd
+  obtain ⟨a, ha'⟩ := ha
+  have ht := (ConcRW.tinv_reach hwf ha' hr).2
+  have hcop : cr.op = .read k := by
+    have := ConcRW.ops_getElem? ht hcr
+    rw [hop] at this
+    exact (Option.some.inj this).symm
+  exact read_fresh hwf ⟨a, ha'⟩ hr hab hcw hwd hpk hcr hcop hrd
+
+/-- C08/R3 (`no_lost_ack`): a write whose response `Ok(())` is in the history with a place `p` (it stored; the
+    place is ghost) belongs to a `write k ts d` client, `p.r` is exactly that record, its push is in the trace, and
+    the record stays at that place (same blob id, same position) in EVERY later state: rotations, dumps, other
+    writes and deletes never remove or move it. -/
+theorem no_lost_ack {st : Store} {ops : List COp} {s : CState} (hwf : st.WF)
+    (ha : ∃ a, st.active = some a) (hr : ConcRW.Reach (ConcRW.init st ops) s)
+    {i : Nat} {p : PRec} (hack : Ev.res i (.wrote (some p)) ∈ s.trace) :
+    (∃ k ts d, ops[i]? = some (COp.write k ts d) ∧ p.r = wrec k ts d) ∧ Ev.push i p.r ∈ s.trace ∧
+      ∀ s', ConcRW.Reach s s' → p ∈ History.positioned s'.store.history := by
+  obtain ⟨a, ha⟩ := ha
+  obtain ⟨hi, ht⟩ := ConcRW.tinv_reach hwf ha hr
+  obtain ⟨c, hc, hd⟩ := ht.res i _ hack
+  obtain ⟨hp, k, ts, d, hop, hpr⟩ := ConcRW.done_respOK hi hc hd
+  refine ⟨⟨k, ts, d, by rw [ConcRW.ops_getElem? ht hc, hop], hpr⟩, ?_, ?_⟩
+  · exact (ConcRW.hinv_reach hr).pushed i c p hc (by rw [hd]; rfl)
+  · intro s' hr'
+    exact ConcRW.reach_sub hi hr' p hp
+
+/-- … and a sequential read of that key, in every later state, answers with that record or a higher-ranked
+    one (a marker included) -/
+theorem acked_write_readable {st : Store} {ops : List COp} {s : CState} (hwf : st.WF)
+    (ha : ∃ a, st.active = some a) (hr : ConcRW.Reach (ConcRW.init st ops) s)
+    {i : Nat} {p : PRec} (hack : Ev.res i (.wrote (some p)) ∈ s.trace) (s' : CState) (hr' : ConcRW.Reach s s') :
+    ∃ q, Wit s'.store p.r.key (s'.store.read p.r.key none) q ∧ rankLe q p = true := by
+  have hp := (no_lost_ack hwf ha hr hack).2.2 s' hr'
+  obtain ⟨a, ha⟩ := ha
+  have hi' := (ConcRW.tinv_reach hwf ha (ConcRW.reach_trans hr hr')).1
+  exact (ConcRW.getLatestEntry_resOK hi'.wf p.r.key).2 p hp rfl
+
+/-- a write that was acknowledged without storing anything saw a live record of its key -/
+theorem skipped_write_saw_live {st : Store} {ops : List COp} {s : CState} (hwf : st.WF)
+    (ha : ∃ a, st.active = some a) (hr : ConcRW.Reach (ConcRW.init st ops) s)
+    {i : Nat} (hack : Ev.res i (.wrote none) ∈ s.trace) :
+    ∃ k ts d, ops[i]? = some (COp.write k ts d) ∧ ∃ q x, Wit s.store k (.found x) q := by
+  obtain ⟨a, ha⟩ := ha
+  obtain ⟨hi, ht⟩ := ConcRW.tinv_reach hwf ha hr
+  obtain ⟨c, hc, hd⟩ := ht.res i _ hack
+  obtain ⟨⟨k, ts, d, hop⟩, q, x, hq⟩ := ConcRW.done_respOK hi hc hd
+  rw [hop] at hq
+  exact ⟨k, ts, d, by rw [ConcRW.ops_getElem? ht hc, hop], q, x, hq⟩
+
+/-- C08/R4a: in every reachable state the store is the replay, on the starting store, of the trace's mutation
+    events in the order they took effect (`push` = the index push of a write, the two marker phases of a delete,
+    rotation, dump); it is well-formed, so by C01 every sequential read on it answers per `Spec` -/
+theorem store_eq_replay {st : Store} {ops : List COp} {s : CState} (hwf : st.WF)
+    (ha : ∃ a, st.active = some a) (hr : ConcRW.Reach (ConcRW.init st ops) s) :
+    s.store = ConcRW.replay st s.trace ∧ s.store.WF ∧
+      ∀ k, s.store.read k none = (Spec.latest s.store.history k).map (·.r) := by
+  obtain ⟨a, ha⟩ := ha
+  obtain ⟨hi, ht⟩ := ConcRW.tinv_reach hwf ha hr
+  exact ⟨ht.replay, hi.wf, fun k => read_eq_spec hi.wf k⟩
+
+/-- … and that replay is a run of the sequential model `Store.run` on the operations the events stand for
+    (`Store.write` per push, `Store.delete` per pair of delete phases, `replaceActive`, `settle`), provided
+    (1) the two phases of every delete are adjacent among the mutations (`coalesce` succeeds) and
+    (2) no write is one that the sequential duplicate check would have skipped (`NoSkip`). -/
+theorem equals_sequential_partial {st : Store} {ops : List COp} {s : CState} (hwf : st.WF)
+    (ha : ∃ a, st.active = some a) (hr : ConcRW.Reach (ConcRW.init st ops) s) {seq : List Op}
+    (hc : ConcRW.coalesce (ConcRW.muts s.trace) = some seq) (hns : ConcRW.NoSkip st seq) :
+    s.store = st.run seq := by
+  obtain ⟨a, ha⟩ := ha
+  obtain ⟨hi, ht⟩ := ConcRW.tinv_reach hwf ha hr
+  rw [ht.replay, ConcRW.replay_eq_muts]
+  refine ConcRW.applyAll_eq_run _ _ _ hc hns ⟨a, ha⟩ ?_
+  intro i r hm
+  have : Ev.push i r ∈ s.trace := by
+    simp only [ConcRW.muts, List.mem_filter, List.mem_reverse] at hm
+    exact hm.1
+  obtain ⟨k, ts, d, _, rfl⟩ := ht.push i r this
+  rfl
+
+/-- C08/R4 (`quiescent_equals_sequential`, under the two hypotheses above; both are needed, see
+    `duplicate_check_race` and `delete_phase_race`): when every client has returned, the store equals the
+    sequential model run over the writes/deletes in the order of their linearization points; every `write` client
+    either has its record pushed (and then it is one of the writes of that run) or was acknowledged as a duplicate;
+    and every later sequential `read`/`contains` answers per `Spec` on that run's history (C01). -/
+theorem quiescent_equals_sequential_partial {st : Store} {ops : List COp} {s : CState} (hwf : st.WF)
+    (ha : ∃ a, st.active = some a) (hr : ConcRW.Reach (ConcRW.init st ops) s) (hq : ConcRW.quiescent s)
+    {seq : List Op} (hc : ConcRW.coalesce (ConcRW.muts s.trace) = some seq) (hns : ConcRW.NoSkip st seq) :
+    s.store = st.run seq ∧
+      (∀ i k ts d, ops[i]? = some (COp.write k ts d) →
+        Ev.push i (wrec k ts d) ∈ s.trace ∨ ConcRW.respOf s i = some (.wrote none)) ∧
+      (∀ k, s.store.read k none = (Spec.latest (st.run seq).history k).map (·.r)) ∧
+      (∀ k, s.store.contains k = (Spec.latest (st.run seq).history k).map (·.r.ts)) := by
+  have heq := equals_sequential_partial hwf ha hr hc hns
+  obtain ⟨a, ha⟩ := ha
+  obtain ⟨hi, ht⟩ := ConcRW.tinv_reach hwf ha hr
+  refine ⟨heq, ?_, ?_, ?_⟩
+  · intro i k ts d hop
+    have hlen : i < s.clients.length := by
+      have : i < ops.length := by
+        rcases Nat.lt_or_ge i ops.length with h | h
+        · exact h
+        · rw [List.getElem?_eq_none h] at hop; cases hop
+      rw [← ht.opsEq, List.length_map] at this
+      exact this
+    obtain ⟨c, hc'⟩ : ∃ c, s.clients[i]? = some c := ⟨s.clients[i], List.getElem?_eq_getElem hlen⟩
+    have hcop : c.op = .write k ts d := by
+      have := ConcRW.ops_getElem? ht hc'
+      rw [hop] at this
+      exact (Option.some.inj this).symm
+    obtain ⟨r, hd⟩ := hq c (List.mem_of_getElem? hc')
+    have hok := ConcRW.done_respOK hi hc' hd
+    cases r with
+    | wrote p =>
+      cases p with
+      | none => exact Or.inr (respOf_done hc' hd)
+      | some p =>
+        left
+        have := (ConcRW.hinv_reach hr).pushed i c p hc' (by rw [hd]; rfl)
+        obtain ⟨_, k', ts', d', h1, h2⟩ := hok
+        rw [hcop] at h1
+        cases h1
+        rw [← h2]; exact this
+    | value res => obtain ⟨⟨k', hk'⟩, _⟩ := hok; rw [hcop] at hk'; cases hk'
+    | torn => exact absurd hok id
+    | has x => obtain ⟨⟨k', hk'⟩, _⟩ := hok; rw [hcop] at hk'; cases hk'
+    | deleted n => obtain ⟨k', ts', oip, hk'⟩ := hok; rw [hcop] at hk'; cases hk'
+  · intro k
+    rw [← heq]
+    exact read_eq_spec hi.wf k
+  · intro k
+    rw [← heq]
+    exact contains_eq_spec hi.wf k
+
+/-- C08/R4 without side conditions: duplicates allowed, no deletes -/
+theorem quiescent_equals_sequential {st : Store} {ops : List COp} {s : CState} (hwf : st.WF)
+    (ha : ∃ a, st.active = some a) (hdup : st.allowDup = true) (hdf : ∀ op ∈ ops, op.isDelete = false)
+    (hr : ConcRW.Reach (ConcRW.init st ops) s) :
+    ∃ seq, ConcRW.coalesce (ConcRW.muts s.trace) = some seq ∧ s.store = st.run seq := by
+  obtain ⟨a, ha'⟩ := ha
+  obtain ⟨hi, ht⟩ := ConcRW.tinv_reach hwf ha' hr
+  have hmem : ∀ e, e ∈ ConcRW.muts s.trace → e ∈ s.trace ∧ e.mutates = true := by
+    intro e he
+    simp only [ConcRW.muts, List.mem_filter, List.mem_reverse] at he
+    exact he
+  have hnodel : ∀ j k ts, ((∃ oip, Ev.delA j k ts oip ∈ s.trace) ∨ Ev.delC j k ts ∈ s.trace) → False := by
+    intro j k ts h
+    obtain ⟨oip, ho⟩ := ht.del j k ts h
+    have := hdf _ (List.mem_of_getElem? ho)
+    cases this
+  obtain ⟨seq, hs⟩ := ConcRW.coalesce_of_noDel (ConcRW.muts s.trace) (fun e he => (hmem e he).2)
+    (fun e he i k ts oip hx => hnodel i k ts (Or.inl ⟨oip, hx ▸ (hmem e he).1⟩))
+    (fun e he i k ts hx => hnodel i k ts (Or.inr (hx ▸ (hmem e he).1)))
+  exact ⟨seq, hs, equals_sequential_partial hwf ⟨a, ha'⟩ hr hs (ConcRW.noSkip_of_allowDup _ _ _ hs hdup)⟩
+
+/-- C08/R5a (`real_time_order`, deletes included): the order of the linearization events in the trace (write: its
+    push; read / `contains` / skipped write: its first look-up; delete: its first marker phase) extends real time:
+    if `i` got its response before `j` was invoked, then `i`'s point precedes `j`'s -/
+theorem real_time_order {st : Store} {ops : List COp} {s : CState}
+    (hr : ConcRW.Reach (ConcRW.init st ops) s) {i j : Nat} {cj : Client}
+    (hcj : s.clients[j]? = some cj) (hl : cj.pc.hasLin = true) (hab : AckedBefore i j s.trace) :
+    LinBefore i j s.trace :=
+  let hh := ConcRW.hinv_reach hr
+  ConcRW.ackedBefore_linBefore hh.ok (hh.lin j cj hcj hl) hab
+
+/-- C08/R5 (`linearizable`, for systems without `delete` operations): every completed operation has its
+    linearization event in the trace (between its invocation and its response, `real_time_order`), a client looks
+    at most once, and the answer is the sequential model's answer on the store replayed up to that event:
+    `read` → `Store.read`, `contains` → `Store.contains`, a skipped `write` → the duplicate check of `Store.write`
+    succeeds there; a stored write's push is in the trace (`store_eq_replay`: it is an append there). -/
+theorem linearizable_partial {st : Store} {ops : List COp} {s : CState} (hwf : st.WF)
+    (ha : ∃ a, st.active = some a) (hdf : ∀ op ∈ ops, op.isDelete = false)
+    (hr : ConcRW.Reach (ConcRW.init st ops) s) {i : Nat} {c : Client} {r : Resp}
+    (hc : s.clients[i]? = some c) (hd : c.pc = .done r) :
+    (∃ x ∈ s.trace, Ev.linOf i x = true) ∧ s.trace.count (.look i) ≤ 1 ∧
+    (∀ k res, c.op = .read k → r = .value res →
+      ∃ l1 past, s.trace = l1 ++ Ev.look i :: past ∧ res = (ConcRW.replay st past).read k none) ∧
+    (∀ k x, c.op = .contains k → r = .has x →
+      ∃ l1 past, s.trace = l1 ++ Ev.look i :: past ∧ x = (ConcRW.replay st past).contains k) ∧
+    (∀ k ts d, c.op = .write k ts d → r = .wrote none →
+      ∃ l1 past, s.trace = l1 ++ Ev.look i :: past ∧
+        ((ConcRW.replay st past).getLatestEntry k none).isFound = true) ∧
+    (∀ p, r = .wrote (some p) → Ev.push i p.r ∈ s.trace) := by
+  obtain ⟨a, ha⟩ := ha
+  have hh := ConcRW.hinv_reach hr
+  have hdi := ConcRW.dinv_reach hwf ha hdf hr i c hc
+  unfold ConcRW.DCInv at hdi
+  rw [hd] at hdi
+  refine ⟨hh.lin i c hc (by rw [hd]; rfl), hh.lookOnce i, ?_, ?_, ?_, ?_⟩
+  · rintro k res hop rfl
+    rw [hop] at hdi
+    exact hdi
+  · rintro k x hop rfl
+    rw [hop] at hdi
+    obtain ⟨res, h1, l1, past, h2, h3⟩ := hdi
+    exact ⟨l1, past, h2, by rw [h1, h3]; rfl⟩
+  · rintro k ts d hop rfl
+    rw [hop] at hdi
+    obtain ⟨res, h1, l1, past, h2, h3⟩ := hdi
+    exact ⟨l1, past, h2, by rw [h3] at h1; exact h1⟩
+  · rintro p rfl
+    exact hh.pushed i c p hc (by rw [hd]; rfl)
+
+/-! ### the locks: no deadlock, termination -/
+
+/-- at most one client is inside `Blob::write`'s upgradable section, and it is the holder of the blob lock -/
+theorem blob_lock_exclusive {st : Store} {ops : List COp} {s : CState}
+    (hr : ConcRW.Reach (ConcRW.init st ops) s) {i j : Nat} {ci cj : Client}
+    (hi : s.clients[i]? = some ci) (hj : s.clients[j]? = some cj)
+    (hbi : ci.pc.holdsB = true) (hbj : cj.pc.holdsB = true) : i = j ∧ s.blobLock = some i := by
+  have hb := ConcRW.binv_reach hr
+  have h1 := hb.inside i ci hi hbi
+  have h2 := hb.inside j cj hj hbj
+  rw [h1] at h2
+  exact ⟨Option.some.inj h2, h1⟩
+
+/-- C08/D4 (no deadlock on the data path): a client that has not returned can take its next step, unless it
+    waits for the blob lock — and then the holder is another client inside the critical section, which can take
+    its next step.  (Storage lock: rotation is a single step taken when no client holds the lock shared, so the
+    shared side is never refused here; writer preference and the bounded channel are `no_deadlock` above.) -/
+theorem client_progress {st : Store} {ops : List COp} {s : CState} (hwf : st.WF)
+    (ha : ∃ a, st.active = some a) (hr : ConcRW.Reach (ConcRW.init st ops) s) {i : Nat} {c : Client}
+    (hc : s.clients[i]? = some c) (hnd : ∀ r, c.pc ≠ .done r) :
+    (∃ s', ConcRW.fire (.step i) s = some s') ∨
+      ∃ x cx, x ≠ i ∧ s.blobLock = some x ∧ s.clients[x]? = some cx ∧ cx.pc.holdsB = true ∧
+        ∃ s', ConcRW.fire (.step x) s = some s' := by
+  obtain ⟨a, ha⟩ := ha
+  obtain ⟨hi, _⟩ := ConcRW.tinv_reach hwf ha hr
+  obtain ⟨a', ha'⟩ := hi.active
+  have hb := ConcRW.binv_reach hr
+  have htc := hb.typed c (List.mem_of_getElem? hc)
+  cases hbl : s.blobLock with
+  | none =>
+    obtain ⟨o, ho⟩ := ConcRW.cstep_enabled (landed := s.landed) (bl := s.blobLock) (i := i) htc ha' hnd
+      (Or.inl hbl)
+    exact Or.inl (ConcRW.fire_step_of_cstep hc ho)
+  | some x =>
+    obtain ⟨cx, hcx, hbx⟩ := hb.holder x hbl
+    have hx : ∃ s', ConcRW.fire (.step x) s = some s' := by
+      have hndx : ∀ r, cx.pc ≠ .done r := by intro r h; rw [h] at hbx; cases hbx
+      have hnw : cx.pc ≠ .wLocked ∧ cx.pc ≠ .dActive := by
+        constructor <;> intro h <;> rw [h] at hbx <;> cases hbx
+      obtain ⟨o, ho⟩ := ConcRW.cstep_enabled (landed := s.landed) (bl := s.blobLock) (i := x)
+        (hb.typed cx (List.mem_of_getElem? hcx)) ha' hndx (Or.inr hnw)
+      exact ConcRW.fire_step_of_cstep hcx ho
+    by_cases hxi : x = i
+    · subst hxi; exact Or.inl hx
+    · exact Or.inr ⟨x, cx, hxi, rfl, hcx, hbx, hx⟩
+
+/-- every client step uses up one of the at most 17 steps of its client: no schedule contains more than `17·N`
+    client steps (the worker's rotations and dumps are not bounded and need not be) -/
+theorem client_steps_bounded (st : Store) (ops : List COp) (sched : List ConcRW.Label) (s : CState)
+    (h : ConcRW.runSched sched (ConcRW.init st ops) = some s) :
+    (sched.filter ConcRW.Label.isStep).length ≤ 17 * ops.length := by
+  have := ConcRW.runSched_measure sched _ _ h
+  rw [ConcRW.measure_init] at this
+  omega
+
+/-! ### what is false, on concrete witnesses -/
+
+/-- store: blob 0 (closed) holds key 1 @ ts 3, blob 1 (active) holds key 1 @ ts 4 -/
+def nlSt : Store := (Store.init true).run [.write 1 3 none ⟨1, 1⟩, .replaceActive, .write 1 4 none ⟨2, 2⟩]
+def nlOps : List COp := [.read 1, .write 1 10 ⟨3, 3⟩, .delete 1 5 false]
+/-- the reader looks into the active blob (sees ts 4); the writer runs from invocation to acknowledgement
+    (ts 10 into the active blob); then the delete runs from invocation to response (marker ts 5 into the active
+    blob — below ts 10 — and into the closed blob); the reader looks into the closed blob (sees the marker) -/
+def nlSched : List ConcRW.Label :=
+  [.step 0, .step 0, .step 0] ++ List.replicate 9 (.step 1) ++ List.replicate 6 (.step 2) ++
+    List.replicate 4 (.step 0)
+def nlW : Op := .write 1 10 none ⟨3, 3⟩
+def nlD : Op := .delete 1 5 none false
+
+/-- C08/R5 is FALSE with deletes: a read that spans a write acknowledged before a delete was invoked answers
+    `Deleted(5)`; in the only order of the two mutations that real time admits (write, then delete) the sequential
+    model answers `Found(ts 4)` before both, `Found(ts 10)` between them and `Found(ts 10)` after both.
+    (`read_fresh` is not violated: the write was not acknowledged before the read started.) -/
+theorem read_not_linearizable_with_delete :
+    ∃ s, ConcRW.runSched nlSched (ConcRW.init nlSt nlOps) = some s ∧
+      s.trace.reverse.filter (fun e => !e.mutates && e != .look 0) =
+        [.inv 0 (.read 1), .inv 1 (.write 1 10 ⟨3, 3⟩),
+         .res 1 (.wrote (some ⟨⟨1, 10, false, none, ⟨3, 3⟩⟩, 1, 1⟩)),
+         .inv 2 (.delete 1 5 false), .res 2 (.deleted 2), .res 0 (.value (.deleted 5))] ∧
+      AckedBefore 1 2 s.trace ∧
+      ConcRW.respOf s 0 = some (.value (.deleted 5)) ∧
+      nlSt.read 1 none = .found ⟨1, 4, false, none, ⟨2, 2⟩⟩ ∧
+      (nlSt.run [nlW]).read 1 none = .found ⟨1, 10, false, none, ⟨3, 3⟩⟩ ∧
+      (nlSt.run [nlW, nlD]).read 1 none = .found ⟨1, 10, false, none, ⟨3, 3⟩⟩ :=
+  ⟨_, rfl, by decide, by decide, by decide, by decide, by decide, by decide⟩
+
+def dupOps : List COp := [.write 1 5 ⟨1, 1⟩, .write 1 9 ⟨2, 2⟩]
+/-- both writers finish `contains_with` (NotFound) before either appends -/
+def dupSched : List ConcRW.Label :=
+  List.replicate 5 (.step 0) ++ List.replicate 5 (.step 1) ++ List.replicate 8 (.step 0) ++
+    List.replicate 8 (.step 1)
+
+/-- C08/R4 needs `NoSkip`: with `allow_duplicates = false` two concurrent writes of one key are both stored and
+    both acknowledged; the sequential model stores one, in either order -/
+theorem duplicate_check_race :
+    ∃ s, ConcRW.runSched dupSched (ConcRW.init (Store.init false) dupOps) = some s ∧
+      ConcRW.quiescent s ∧
+      s.store.history = [(0, [wrec 1 5 ⟨1, 1⟩, wrec 1 9 ⟨2, 2⟩])] ∧
+      ((Store.init false).run [.write 1 5 none ⟨1, 1⟩, .write 1 9 none ⟨2, 2⟩]).history = [(0, [wrec 1 5 ⟨1, 1⟩])] ∧
+      ((Store.init false).run [.write 1 9 none ⟨2, 2⟩, .write 1 5 none ⟨1, 1⟩]).history = [(0, [wrec 1 9 ⟨2, 2⟩])] ∧
+      (s.store.readAll 1).length = 2 := by
+  refine ⟨_, rfl, ?_, by decide, by decide, by decide, by decide⟩
+  intro c hc
+  have : c.pc.weight = 0 := by
+    revert c
+    decide
+  cases hpc : c.pc <;> simp [hpc, ConcRW.Pc.weight] at this
+  exact ⟨_, rfl⟩
+
+/-- store: blob 0 (closed) and blob 1 (active) both hold key 1 @ ts 5 -/
+def delSt : Store := (Store.init true).run [.write 1 5 none ⟨1, 1⟩, .replaceActive, .write 1 5 none ⟨2, 2⟩]
+def delOps : List COp := [.delete 1 10 true, .delete 1 3 true]
+/-- active phases in the order 0, 1; closed phases in the order 1, 0 -/
+def delSched : List ConcRW.Label :=
+  List.replicate 3 (.step 0) ++ List.replicate 4 (.step 1) ++ List.replicate 3 (.step 0) ++
+    List.replicate 2 (.step 1)
+
+/-- C08/R4 needs adjacent delete phases: two concurrent deletes of one key whose phases cross leave a store that
+    no sequential order of the two produces, and return counts (2 and 1) that no sequential order returns -/
+theorem delete_phase_race :
+    ∃ s, ConcRW.runSched delSched (ConcRW.init delSt delOps) = some s ∧
+      ConcRW.muts s.trace = [.delA 0 1 10 true, .delA 1 1 3 true, .delC 1 1 3, .delC 0 1 10] ∧
+      ConcRW.coalesce (ConcRW.muts s.trace) = none ∧
+      [ConcRW.respOf s 0, ConcRW.respOf s 1] = [some (.deleted 2), some (.deleted 1)] ∧
+      s.store.history ≠ (delSt.run [.delete 1 10 none true, .delete 1 3 none true]).history ∧
+      s.store.history ≠ (delSt.run [.delete 1 3 none true, .delete 1 10 none true]).history ∧
+      ((delSt.delete 1 10 none true).2, ((delSt.delete 1 10 none true).1.delete 1 3 none true).2) = (2, 0) ∧
+      ((delSt.delete 1 3 none true).2, ((delSt.delete 1 3 none true).1.delete 1 10 none true).2) = (2, 2) :=
+  ⟨_, rfl, by decide, by decide, by decide, by decide, by decide, by decide, by decide⟩
+
+/-! ### non-vacuity: three clients, a rotation in the middle, the read overlaps the write — both outcomes -/
+
+/-- blob 0 (active) holds key 1 @ ts 3 and key 2 @ ts 7 -/
+def rwSt : Store := (Store.init true).run [.write 1 3 none ⟨1, 1⟩, .write 2 7 none ⟨3, 3⟩]
+def rwOps : List COp := [.write 1 10 ⟨2, 2⟩, .read 1, .contains 2]
+/-- all invoked; rotation; the reader looks into the new (empty) active blob; the writer appends there and is
+    acknowledged; the reader looks into the closed blob: the OLD value -/
+def rwSchedOld : List ConcRW.Label :=
+  [.step 0, .step 1, .step 2, .rotate, .step 1, .step 1,
+   .step 0, .step 0, .step 0, .step 0, .step 0, .step 0, .step 0, .step 0,
+   .step 1, .step 1, .step 1, .step 1, .dump, .step 2, .step 2, .step 2, .step 2, .step 2]
+/-- all invoked; rotation; the writer pushes; the reader looks (active blob, then closed): the NEW value;
+    responses in either order -/
+def rwSchedNew : List ConcRW.Label :=
+  [.step 0, .step 1, .step 2, .rotate,
+   .step 0, .step 0, .step 0, .step 0, .step 0, .step 1, .step 1, .step 0, .step 0, .step 0,
+   .step 1, .step 1, .step 1, .step 1, .dump, .step 2, .step 2, .step 2, .step 2, .step 2]
+
+example : (ConcRW.runSched rwSchedOld (ConcRW.init rwSt rwOps)).map
+      (fun s => [ConcRW.respOf s 0, ConcRW.respOf s 1, ConcRW.respOf s 2]) =
+    some [some (.wrote (some ⟨⟨1, 10, false, none, ⟨2, 2⟩⟩, 1, 0⟩)),
+          some (.value (.found ⟨1, 3, false, none, ⟨1, 1⟩⟩)), some (.has (.found 7))] := by decide
+example : (ConcRW.runSched rwSchedNew (ConcRW.init rwSt rwOps)).map
+      (fun s => [ConcRW.respOf s 0, ConcRW.respOf s 1, ConcRW.respOf s 2]) =
+    some [some (.wrote (some ⟨⟨1, 10, false, none, ⟨2, 2⟩⟩, 1, 0⟩)),
+          some (.value (.found ⟨1, 10, false, none, ⟨2, 2⟩⟩)), some (.has (.found 7))] := by decide
+-- the history of the second run: the read overlaps the write (both invoked before either responds), the
+-- rotation lies between the invocations and the push
+example : (ConcRW.runSched rwSchedNew (ConcRW.init rwSt rwOps)).map (fun s => s.trace.reverse.take 7) =
+    some [.inv 0 (.write 1 10 ⟨2, 2⟩), .inv 1 (.read 1), .inv 2 (.contains 2), .rot,
+          .push 0 (wrec 1 10 ⟨2, 2⟩), .look 1,
+          .res 0 (.wrote (some ⟨⟨1, 10, false, none, ⟨2, 2⟩⟩, 1, 0⟩))] := by decide
+-- the hypotheses of the theorems hold for this start, and the final states are reachable and quiescent
+theorem rwSt_ok : rwSt.WF ∧ ∃ a, rwSt.active = some a := ⟨run_WF true _, _, rfl⟩
+example : ∃ s, ConcRW.Reach (ConcRW.init rwSt rwOps) s ∧ ConcRW.respOf s 1 = some (.value (.found (wrec 1 3 ⟨1, 1⟩))) :=
+  ⟨_, ConcRW.runSched_reach rwSchedOld _ _ _ .refl rfl, by decide⟩
+-- `read_returns_written` on the second run: the value read is the one client 0 pushed
+example (s : CState) (h : ConcRW.runSched rwSchedNew (ConcRW.init rwSt rwOps) = some s) (c : Client)
+    (hc : s.clients[1]? = some c) (hop : c.op = .read 1) (r : Resp) (hd : c.pc = .done r) :
+    ∃ res, r = .value res ∧ ∀ x, res = .found x → x.key = 1 ∧ x.del = false ∧ x ∈ s.landed :=
+  let ⟨res, h1, h2⟩ := read_returns_written rwSt_ok.1 rwSt_ok.2
+    (ConcRW.runSched_reach rwSchedNew _ _ _ .refl h) hc hop hd
+  ⟨res, h1, fun x hx => let ⟨a, b, c, _⟩ := h2 x hx; ⟨a, b, c⟩⟩
+-- `read_fresh` is not vacuous: a third schedule in which the write IS acknowledged before the read is invoked
+def rwSchedAfter : List ConcRW.Label :=
+  List.replicate 9 (.step 0) ++ [.rotate] ++ List.replicate 7 (.step 1)
+example : (ConcRW.runSched rwSchedAfter (ConcRW.init rwSt rwOps)).map
+      (fun s => (decide (AckedBefore 0 1 s.trace), ConcRW.respOf s 1)) =
+    some (true, some (.value (.found (wrec 1 10 ⟨2, 2⟩)))) := by decide
+-- … and `read_fresh` applied to that run, every hypothesis discharged: the write (client 0) is acknowledged at
+-- blob 0, position 2; the active blob is rotated; the read (client 1) must answer with a record ranked at least
+-- as high
+example (s : CState) (h : ConcRW.runSched rwSchedAfter (ConcRW.init rwSt rwOps) = some s) :
+    ∃ res q, ConcRW.respOf s 1 = some (.value res) ∧ Wit s.store 1 res q ∧
+      rankLe q ⟨wrec 1 10 ⟨2, 2⟩, 0, 2⟩ = true := by
+  have e : (ConcRW.runSched rwSchedAfter (ConcRW.init rwSt rwOps)).map
+      (fun s => (decide (AckedBefore 0 1 s.trace), ConcRW.respOf s 0, (ConcRW.respOf s 1).isSome)) =
+      some (true, some (.wrote (some ⟨wrec 1 10 ⟨2, 2⟩, 0, 2⟩)), true) := by decide
+  rw [h] at e
+  simp only [Option.map_some, Option.some.injEq, Prod.mk.injEq, decide_eq_true_eq] at e
+  obtain ⟨e1, e2, e3⟩ := e
+  obtain ⟨resp, e3⟩ := Option.isSome_iff_exists.1 e3
+  obtain ⟨res, q, h1, h2, h3⟩ := read_fresh_resp rwSt_ok.1 rwSt_ok.2
+    (ConcRW.runSched_reach rwSchedAfter _ _ _ .refl h) e1 e2 rfl (by decide) e3
+  exact ⟨res, q, by rw [e3, h1], h2, h3⟩
+-- `no_lost_ack` on the first run: the acknowledged record is still at blob 1, position 0 after any continuation
+example (s : CState) (h : ConcRW.runSched rwSchedOld (ConcRW.init rwSt rwOps) = some s) (s' : CState)
+    (h' : ConcRW.Reach s s') : (⟨wrec 1 10 ⟨2, 2⟩, 1, 0⟩ : PRec) ∈ History.positioned s'.store.history := by
+  have e : (ConcRW.runSched rwSchedOld (ConcRW.init rwSt rwOps)).map
+      (fun s => decide (Ev.res 0 (.wrote (some ⟨wrec 1 10 ⟨2, 2⟩, 1, 0⟩)) ∈ s.trace)) = some true := by decide
+  rw [h] at e
+  simp only [Option.map_some, Option.some.injEq, decide_eq_true_eq] at e
+  exact (no_lost_ack rwSt_ok.1 rwSt_ok.2 (ConcRW.runSched_reach rwSchedOld _ _ _ .refl h) e).2.2 s' h'
+-- `linearizable_partial` applies to these runs: nobody deletes
+example : ∀ op ∈ rwOps, op.isDelete = false := by decide
+-- delete-free, duplicates allowed: the final store of the first run is the sequential run over the two
+-- mutations in trace order (`quiescent_equals_sequential`)
+example : (ConcRW.runSched rwSchedOld (ConcRW.init rwSt rwOps)).map
+      (fun s => (ConcRW.muts s.trace, (ConcRW.coalesce (ConcRW.muts s.trace)).map List.length)) =
+    some ([.rot, .push 0 (wrec 1 10 ⟨2, 2⟩), .dump], some 3) := by decide
+-- the blocked case of `client_progress`: client 1 waits for the blob lock that client 0 holds
+example : ((ConcRW.runSched [.step 0, .step 0, .step 0, .step 1, .step 1] (ConcRW.init (Store.init true) dupOps)).bind
+      (fun s => (ConcRW.fire (.step 1) s).map (fun _ => ()))) = none := by decide
+
 end C08
 end Pearl
+
+/-
+NOT YET PROVED (C08, read side)
+
+* Linearizability of `read`/`contains` when deletes run concurrently is false (`read_not_linearizable_with_delete`);
+  what holds with deletes is `read_fresh`/`read_returns_written` (the look-up is bounded below by the store at its
+  invocation).  A matching upper bound (the answer is not ranked above the first-ranked record of the store at its
+  response) is true of the model but not stated.
+* `quiescent_equals_sequential` for crossing delete phases / duplicate-check races is false for store equality
+  (`delete_phase_race`, `duplicate_check_race`).  Not investigated: whether the crossed-delete store is
+  observationally equal (same `Spec` answers for every key) to some sequential order; the returned counts are not.
+* `read_with` / `write_with` / `delete_with` (metadata), `read_all`, `read_all_with_deletion_marker` under
+  concurrency are not modelled (the sequential versions are C02).
+* The model assumes an active blob throughout (no concurrent `close_active_blob` / `restore_active_blob`), no I/O
+  errors, and filters that are transparent (C10) and updated before a header becomes visible (`IndexStruct::push`
+  adds the key to the filter before inserting, under the index write lock).
+* `client_progress` is a safety-style progress statement (some enabled step exists); fairness of tokio's scheduler
+  and of `async_lock::RwLock` is not modelled.  The storage lock's writer preference and the worker channel are
+  the subject of `no_deadlock` (first half), not of `Pearl.ConcRW`, where rotation is one atomic step.
+* Byte offsets: `Pearl.ConcRW` tracks only "the bytes of `r` are in the file" (`landed`); disjointness of the
+  reserved ranges is `ranges_disjoint_interleaved` in `Pearl.Append` and the two models are not composed.
+-/
